@@ -49,10 +49,51 @@ STR_POOL = ["u1", "u10", "u2", "u21", "B", "a", "Z9", "aa", "A", "b", "u", "07",
 ATTRS = ["rating", "timestamp", "extra"]
 
 
+INT_DTYPES = {"int8": (-2 ** 7, 2 ** 7 - 1), "int16": (-2 ** 15, 2 ** 15 - 1), "int32": (-2 ** 31, 2 ** 31 - 1),
+              "int64": (-2 ** 63, 2 ** 63 - 1), "uint8": (0, 2 ** 8 - 1), "uint16": (0, 2 ** 16 - 1), "uint32": (0, 2 ** 32 - 1)}
+
+
+def fits(dtype, ids):
+    lo, hi = INT_DTYPES[dtype]
+    return all(lo <= x <= hi for x in ids)
+
+
 def gen_ids(rng, kind, n):
-    if kind == "int":
-        return rng.sample(list(range(1, 60)), n)
-    return rng.sample(STR_POOL, n)
+    """-> (declared dtype, ids the generator uses as entities, identifiers it never declares: unknown probes).
+    Integer probes are chosen adversarially against the declared dtype: congruent to a used id modulo 2^8 / 2^16 / 2^32 /
+    2^bits, negated, or huge."""
+    if kind != "int":
+        ids = rng.sample(STR_POOL, n + 1)
+        return None, ids[:n], ids[n:]
+    dt = rng.weighted([("int64", 4), ("int32", 4), ("int16", 1), ("int8", 1), ("uint8", 2), ("uint16", 2), ("uint32", 3)])
+    lo, hi = INT_DTYPES[dt]
+    base = rng.sample(list(range(0 if rng.chance(1, 6) else 1, 60)), n)
+    if rng.chance(1, 4):
+        base[rng.below(n)] = hi                      # the largest value of the declared type
+    if lo < 0 and rng.chance(1, 4):
+        x = rng.choice([lo, -1, -rng.randint(2, 50)])
+        if x not in base:
+            base[rng.below(n)] = x
+    base = first_unique(base)
+    bits = {"int8": 8, "int16": 16, "int32": 32, "int64": 64, "uint8": 8, "uint16": 16, "uint32": 32}[dt]
+    cands = []
+    for k in rng.shuffle(base)[:3]:
+        for m in (2 ** bits, -(2 ** bits), 3 * 2 ** bits, 2 ** 8, 2 ** 16, 2 ** 32, -(2 ** 32), 2 ** 40):
+            cands.append(k + m)
+        cands.append(-k)
+        cands.append(-k - 1)
+    cands = [c for c in first_unique(cands) if c not in base and -2 ** 63 <= c < 2 ** 63]
+    probes = rng.sample(cands, rng.randint(1, 3))
+    if rng.chance(1, 4):
+        probes.append(next(x for x in range(60, 200) if x not in base))       # a plain small unknown too
+    return dt, base, probes
+
+
+def pick_dtype(rng, declared):
+    "dtype of an identifier array handed to the builder (values that do not fit fall back to int64 when the array is made)"
+    if declared is None:
+        return None
+    return rng.weighted([("int64", 5), (declared, 3), ("int32", 1), ("int16", 1), ("uint32", 1)])
 
 
 def gen_row(rng, u, i, schema):
@@ -65,23 +106,42 @@ def gen_case(rng, malformed=False):
     kind_i = rng.choice(["int", "str"])
     nu = rng.weighted([(1, 1), (2, 2), (3, 4), (4, 4), (5, 3), (6, 2), (8, 1)])
     ni = rng.weighted([(1, 1), (2, 2), (3, 4), (4, 4), (5, 3), (6, 2), (8, 1)])
-    uids = gen_ids(rng, kind_u, nu + 1)         # the last one is never used by the generator: an unknown probe
-    iids = gen_ids(rng, kind_i, ni + 1)
+    dt_u, users, adv_u = gen_ids(rng, kind_u, nu)     # adv_*: never declared by the generator -- unknown probes
+    dt_i, items, adv_i = gen_ids(rng, kind_i, ni)
+    nu, ni = len(users), len(items)
+    uids, iids = users + adv_u, items + adv_i
     schema = {"rating": rng.chance(2, 3), "timestamp": rng.chance(1, 2), "extra": rng.chance(1, 4)}
     case = {"kind_u": kind_u, "kind_i": kind_i, "uids": uids, "iids": iids, "schema": schema,
             "ts_kind": rng.choice(["int", "datetime"]),      # Arrow type of the timestamp column: int64 or timestamp[s]
+            "dt_u": dt_u, "dt_i": dt_i,                       # integer dtype of the declared entity lists (None: strings)
             "allow_repeats": rng.chance(1, 5), "style": "malformed" if malformed else "valid"}
-    users, items = uids[:nu], iids[:ni]
+
+    def unknown_rows(k):
+        "records naming an identifier the generator never declares (to be filtered / rejected, never attached)"
+        out = []
+        for _ in range(k):
+            which = rng.weighted([("user", 3), ("item", 3), ("both", 1)])
+            u = rng.choice(adv_u) if which in ("user", "both") else rng.choice(users)
+            i = rng.choice(adv_i) if which in ("item", "both") else rng.choice(items)
+            out.append(gen_row(rng, u, i, schema))
+        return out
+
     if not malformed and rng.chance(1, 4):
         # from_interactions_df
         pairs = rng.sample([(u, i) for u in users for i in items], rng.randint(1, min(nu * ni, 14)))
         rows = [gen_row(rng, u, i, schema) for u, i in pairs]
         case["driver"] = "fidf"
-        case["fidf"] = {"users": rng.shuffle(rng.subset(users, 3, 4)) if rng.chance(1, 3) else None,
-                        "items": rng.shuffle(rng.subset(items, 3, 4)) if rng.chance(1, 3) else None, "rows": rows}
+        case["fidf"] = {"users": rng.shuffle(rng.subset(users, 3, 4)) if rng.chance(1, 2) else None,
+                        "items": rng.shuffle(rng.subset(items, 3, 4)) if rng.chance(1, 2) else None, "rows": rows,
+                        "dtype_u": pick_dtype(rng, dt_u), "dtype_i": pick_dtype(rng, dt_i)}
         for k in ("users", "items"):
             if case["fidf"][k] is not None and not case["fidf"][k]:
                 case["fidf"][k] = None
+        if (case["fidf"]["users"] is not None or case["fidf"]["items"] is not None) and rng.chance(2, 3):
+            # the subset policy: records of unknown identifiers are dropped
+            extra = [r for r in unknown_rows(rng.randint(1, 2))
+                     if (case["fidf"]["users"] is not None or r[0] in users) and (case["fidf"]["items"] is not None or r[1] in items)]
+            case["fidf"]["rows"] = rng.shuffle(rows + extra)
         case["ops"] = []
         return case
     case["driver"] = "builder"
@@ -91,7 +151,7 @@ def gen_case(rng, malformed=False):
     for c, pool in (("user", users), ("item", items)):
         if rng.chance(1, 2):
             ids = rng.shuffle(rng.subset(pool, 3, 4)) or pool[:1]
-            ops.append({"op": "add_entities", "cls": c, "ids": ids, "dup": "error"})
+            ops.append({"op": "add_entities", "cls": c, "ids": ids, "dup": "error", "dtype": dt_u if c == "user" else dt_i})
             known[c] = set(ids)
     nb = rng.weighted([(1, 3), (2, 4), (3, 2), (4, 1)])
     dens = rng.weighted([(1, 2), (2, 3), (3, 2)])
@@ -105,7 +165,10 @@ def gen_case(rng, malformed=False):
         if pol == "error":
             batch = [(u, i) for u, i in batch if u in known["user"] and i in known["item"]]
         rows = [gen_row(rng, u, i, schema) for u, i in batch]
-        ops.append({"op": "add_interactions", "rows": rows, "missing": pol})
+        if pol == "filter" and rng.chance(1, 2):
+            rows = rng.shuffle(rows + unknown_rows(rng.randint(1, 2)))
+        ops.append({"op": "add_interactions", "rows": rows, "missing": pol,
+                    "dtype_u": pick_dtype(rng, dt_u), "dtype_i": pick_dtype(rng, dt_i)})
         if pol == "insert":
             known["user"] = (known["user"] or set()) | {u for u, _ in batch}
             known["item"] = (known["item"] or set()) | {i for _, i in batch}
@@ -113,7 +176,8 @@ def gen_case(rng, malformed=False):
             c = rng.choice(["user", "item"])
             pool = users if c == "user" else items
             ids = rng.shuffle(rng.subset(pool, 1, 2)) or pool[:1]
-            ops.append({"op": "add_entities", "cls": c, "ids": ids, "dup": rng.choice(["update", "overwrite"])})
+            ops.append({"op": "add_entities", "cls": c, "ids": ids, "dup": rng.choice(["update", "overwrite"]),
+                        "dtype": pick_dtype(rng, dt_u if c == "user" else dt_i)})
             known[c] = (known[c] or set()) | set(ids)
         if rng.chance(1, 3):
             choices = [("time", 3 if schema["timestamp"] else 0)]
@@ -126,7 +190,8 @@ def gen_case(rng, malformed=False):
             choices = [c for c in choices if c[1]]
             if choices:
                 kindf = rng.weighted(choices)
-                f = {"op": "filter", "lo": None, "hi": None, "remove": None}
+                f = {"op": "filter", "lo": None, "hi": None, "remove": None,
+                     "dtype_u": pick_dtype(rng, dt_u), "dtype_i": pick_dtype(rng, dt_i)}
                 if kindf in ("time", "both"):
                     f["lo"] = rng.randint(0, 12) if rng.chance(2, 3) else None
                     f["hi"] = rng.randint(8, 21) if rng.chance(2, 3) or f["lo"] is None else None
@@ -148,7 +213,9 @@ def gen_case(rng, malformed=False):
         elif kindm == "reinsert":
             ops.append({"op": "add_entities", "cls": "item", "ids": rng.shuffle(items), "dup": "error"})
         elif kindm == "unknown-error":
-            ops.insert(pos, {"op": "add_interactions", "rows": [gen_row(rng, uids[-1], rng.choice(items), schema)], "missing": "error"})
+            rows = unknown_rows(1) + ([gen_row(rng, rng.choice(users), rng.choice(items), schema)] if rng.chance(1, 2) else [])
+            ops.insert(pos, {"op": "add_interactions", "rows": rng.shuffle(rows), "missing": "error",
+                             "dtype_u": pick_dtype(rng, dt_u), "dtype_i": pick_dtype(rng, dt_i)})
         elif kindm in ("repeat-pair", "late-repeat"):
             case["allow_repeats"] = rng.chance(1, 2)
             adds = [o for o in ops if o["op"] == "add_interactions" and o["rows"]]
@@ -260,19 +327,21 @@ def _setup():
     _ready = True
 
 
-def _ids_array(kind, ids, style):
+def _ids_array(kind, ids, style, dtype=None):
     if kind == "int":
+        if dtype is None or not fits(dtype, ids):
+            dtype = "int64"
         if style == "arrow" or not ids:
-            return pa.array(ids, type=pa.int64())
-        return np.array(ids, dtype=np.int64) if style == "numpy" else list(ids)
+            return pa.array(ids, type=pa.from_numpy_dtype(np.dtype(dtype)))
+        return np.array(ids, dtype=dtype) if style == "numpy" or dtype != "int64" else list(ids)
     if style == "arrow" or not ids:
         return pa.array(ids, type=pa.string())
     return np.array(ids, dtype=object) if style == "numpy" else list(ids)
 
 
-def _frame(case, rows, style):
-    cols = {"user_id": _ids_array(case["kind_u"], [r[0] for r in rows], "arrow"),
-            "item_id": _ids_array(case["kind_i"], [r[1] for r in rows], "arrow")}
+def _frame(case, rows, style, dtype_u=None, dtype_i=None):
+    cols = {"user_id": _ids_array(case["kind_u"], [r[0] for r in rows], "arrow", dtype_u),
+            "item_id": _ids_array(case["kind_i"], [r[1] for r in rows], "arrow", dtype_i)}
     if case["schema"]["rating"]:
         cols["rating"] = pa.array([r[2] / 2 for r in rows], type=pa.float64())
     if case["schema"]["timestamp"]:
@@ -310,20 +379,21 @@ def _apply(dsb, case, o, k):
     style = ["numpy", "arrow", "list", "pandas"][(k + len(o.get("ids", o.get("rows", [])) or [])) % 4]
     if o["op"] == "add_entities":
         kind = case["kind_u"] if o["cls"] == "user" else case["kind_i"]
-        dsb.add_entities(o["cls"], _ids_array(kind, o["ids"], style if style != "pandas" else "numpy"), duplicates=o["dup"])
+        dsb.add_entities(o["cls"], _ids_array(kind, o["ids"], style if style != "pandas" else "numpy", o.get("dtype")), duplicates=o["dup"])
     elif o["op"] == "add_interactions":
-        dsb.add_interactions("rating", _frame(case, o["rows"], "pandas" if k % 2 == 0 else "arrow"), missing=o["missing"])
+        dsb.add_interactions("rating", _frame(case, o["rows"], "pandas" if k % 2 == 0 else "arrow", o.get("dtype_u"), o.get("dtype_i")),
+                             missing=o["missing"])
     elif o["op"] == "filter":
         rem = None
         if o["remove"]:
             kd, vals = o["remove"]["kind"], o["remove"]["vals"]
             if kd == "pairs":
-                rem = pa.table({"user_id": _ids_array(case["kind_u"], [p[0] for p in vals], "arrow"),
-                                "item_id": _ids_array(case["kind_i"], [p[1] for p in vals], "arrow")})
+                rem = pa.table({"user_id": _ids_array(case["kind_u"], [p[0] for p in vals], "arrow", o.get("dtype_u")),
+                                "item_id": _ids_array(case["kind_i"], [p[1] for p in vals], "arrow", o.get("dtype_i"))})
             elif kd == "users":
-                rem = pa.table({"user_id": _ids_array(case["kind_u"], vals, "arrow")})
+                rem = pa.table({"user_id": _ids_array(case["kind_u"], vals, "arrow", o.get("dtype_u"))})
             else:
-                rem = pa.table({"item_id": _ids_array(case["kind_i"], vals, "arrow")})
+                rem = pa.table({"item_id": _ids_array(case["kind_i"], vals, "arrow", o.get("dtype_i"))})
             if k % 2 and len(vals):
                 rem = rem.to_pandas()
         lo, hi = o["lo"], o["hi"]
@@ -421,12 +491,12 @@ def run_impl(case):
             return obs
     else:
         f = case["fidf"]
-        df = _frame(case, f["rows"], "pandas")
+        df = _frame(case, f["rows"], "pandas", f.get("dtype_u"), f.get("dtype_i"))
         kw = {}
         if f["users"] is not None:
-            kw["users"] = _ids_array(case["kind_u"], f["users"], "numpy")
+            kw["users"] = _ids_array(case["kind_u"], f["users"], "numpy", case.get("dt_u"))
         if f["items"] is not None:
-            kw["items"] = _ids_array(case["kind_i"], f["items"], "list")
+            kw["items"] = _ids_array(case["kind_i"], f["items"], "numpy" if case.get("dt_i") else "list", case.get("dt_i"))
         try:
             ds = from_interactions_df(df, **kw)
         except Exception as e:
@@ -759,11 +829,29 @@ def oracle(case, obs):
     first_err = next((e for e, _, _ in log if e), 0)
     if case["driver"] == "builder":
         prev_u, prev_i = [], []
+        prev_known = (None, None)
         for k, ((e, ku, ki), o) in enumerate(zip(log, obs["log"])):
             if o[0] != e:
-                opk = ops_of(case)[k]["op"]
-                bad(f"op-outcome:{opk}:{e}->{o[0]}", f"operation {k} ({opk}) ended with error class {o[0]}, the property expects {e}")
+                opx = ops_of(case)[k]
+                opk = opx["op"]
+                if opk == "add_interactions" and opx["missing"] == "error" and e == 1 and o[0] == 0:
+                    pu = prev_known[0] or set()
+                    pi = prev_known[1] or set()
+                    unk_u = sorted({r[0] for r in opx["rows"] if r[0] not in pu}, key=str)
+                    unk_i = sorted({r[1] for r in opx["rows"] if r[1] not in pi}, key=str)
+                    bad("unknown-id-not-reported:error",
+                        f"operation {k}: add_interactions(missing='error') raised nothing although the batch names identifiers unknown to the "
+                        f"dataset (users {unk_u}, items {unk_i}; known users {sorted(pu, key=str)}, items {sorted(pi, key=str)})")
+                else:
+                    extra = ""
+                    if opk == "add_interactions":
+                        pu, pi = prev_known[0] or set(), prev_known[1] or set()
+                        extra = (f"; policy missing={opx['missing']!r}, identifiers of the batch unknown to the dataset: users "
+                                 f"{sorted({r[0] for r in opx['rows'] if r[0] not in pu}, key=str)}, items "
+                                 f"{sorted({r[1] for r in opx['rows'] if r[1] not in pi}, key=str)}")
+                    bad(f"op-outcome:{opk}:{e}->{o[0]}", f"operation {k} ({opk}) ended with error class {o[0]}, the property expects {e}" + extra)
                 return v
+            prev_known = (ku, ki)
             for name, prev, now, want in (("user", prev_u, o[1], ku), ("item", prev_i, o[2], ki)):
                 if now[: len(prev)] != prev:
                     bad("numbers-changed", f"{name} numbers changed after operation {k}: {prev} -> {now}")
@@ -796,6 +884,22 @@ def oracle(case, obs):
         bad("counts", f"user/item/interaction counts {obs['counts']} != {[len(users), len(items), len(recs)]}")
     want = _ms(recs)
     names = attr_names(case) if cols else []
+    tv = next((x for x in obs["views"] if x[0] == "table_ids"), None)
+    if tv is not None:
+        try:
+            got = Counter((u, i, tuple(a)) for u, i, a in tv[2])
+        except (TypeError, ValueError):
+            got = Counter()
+        for (u, i, a), _n in (got - want).items():
+            for opx in ops_of(case):
+                if opx["op"] != "add_interactions":
+                    continue
+                for r in opx["rows"]:
+                    if tuple(row_attrs(case, r)) == a and (r[0], r[1]) != (u, i) and (r[0] == u or r[0] not in ku) and (r[1] == i or r[1] not in ki):
+                        bad(f"unknown-id-mapped:{opx['missing']}",
+                            f"the input record (user {r[0]!r}, item {r[1]!r}) names an identifier unknown to the dataset "
+                            f"(known users {sorted(ku, key=str)}, items {sorted(ki, key=str)}) but appears in the dataset attached to "
+                            f"user {u!r}, item {i!r} (policy missing={opx['missing']!r})")
 
     def proj(fld):
         if fld is None:
@@ -923,6 +1027,16 @@ def counters(case, obs):
     yield "driver=" + case["driver"]
     yield "style=" + case["style"]
     yield "ids=" + case["kind_u"] + "/" + case["kind_i"]
+    for c in ("dt_u", "dt_i"):
+        if case.get(c):
+            yield "declared-id-dtype=" + case[c]
+    ku, ki = set(case["uids"]), set(case["iids"])
+    for o in ops_of(case):
+        if o["op"] == "add_interactions":
+            for d in {o.get("dtype_u"), o.get("dtype_i")} - {None}:
+                yield "interaction-id-dtype=" + d
+            if obs["build"] == 0 and any(r[0] not in obs["users"] or r[1] not in obs["items"] for r in o["rows"]):
+                yield "rows-with-unknown-id:" + o["missing"]
     yield "build=" + str(obs["build"])
     yield "attrs=" + ",".join(attr_names(case))
     if case["schema"]["timestamp"]:
